@@ -200,6 +200,26 @@ def _postmap_of(ctx, prog, b, inner, name, bi):
         res['writes'] = [(i, j, algebra.canon(elem(it)), algebra.canon(elem(v))) for i, j, it, v in ws]
         if ws:
             res['where'] = b.where(ws[0][0], ws[0][1])
+    # form D: inner.into_iter().map(|mut x| { x[c] = ..; x }).collect()
+    if not res['writes']:
+        rvs0 = [strip(x[0]) for x in b.return_values()]
+        if len(rvs0) == 1 and isinstance(rvs0[0], tuple) and rvs0[0][0] == 'call' and cname(rvs0[0][1]) == 'Iterator::collect':
+            m = strip(rvs0[0][2])
+            if isinstance(m, tuple) and m[0] == 'call' and cname(m[1]) == 'Iterator::map' and len(m) == 4:
+                base, ad = util.iter_chain(m[2])
+                cb, caps = util.closure_of_term(prog, m[3])
+                if cb is not None and strip(base) == inner and cb.arg_count == 2:
+                    crv = [strip(x[0]) for x in cb.return_values()]
+                    ws = partial_writes(cb, lambda lhs, i, j: lhs['local'] == 2 and len(lhs['proj']) == 1)
+                    if len(crv) == 1 and isinstance(crv[0], tuple) and crv[0][0] in ('param', 'mparam') and crv[0][1] == 2:
+                        res['all_elements'] = all(a == 'into_iter' for a in ad) and bool(ad)
+                        res['adaptors'] = ad + ['map']
+                        res['writes'] = [(i, j, selfify(it), selfify(v)) for i, j, it, v in ws]
+                        res['X'] = algebra.canon(('param', 2, cb.name_of(2)))
+                        res['closure'] = cb
+                        res['where'] = cb.where(0)
+                        res['returns_inner'] = True
+                        return res
     # the returned vector is the (updated) inner result
     rvs = [strip(x[0]) for x in b.return_values()]
     res['returns_inner'] = len(rvs) == 1 and rvs[0] == inner
